@@ -3,6 +3,7 @@
 # /repo, selected with GOODWE_SRC; /repo itself is not touched) and write seeded/RESULTS.md
 T="${1:-quick}"
 WT=/tmp/wt/matrix
+rm -rf /tmp/wt/matrix_ev
 git -C /repo worktree remove --force $WT 2>/dev/null
 git -C /repo worktree add -q --detach $WT HEAD || exit 1
 cd /verif
@@ -12,13 +13,12 @@ for d in seeded/C*/; do
   n=$(basename $d); C=$(echo $n | cut -c1-3)
   if [ -n "$ONLY" ] && ! echo " $ONLY " | grep -q " $n "; then grep "^| $n " seeded/RESULTS.md >> seeded/RESULTS.md.tmp 2>/dev/null; continue; fi
   git -C $WT checkout -q -- . ; git -C $WT apply /verif/$d/patch.diff || { echo "| $n | $C | patch does not apply | |" >> seeded/RESULTS.md.tmp; continue; }
-  cp evidence/$C.json /tmp/.ev_$C.bak
-  GOODWE_SRC=$WT ./vcheck $C --tier $T > /tmp/matrix_$n.log 2>&1; rc=$?
-  mv /tmp/.ev_$C.bak evidence/$C.json
+  VERIF_EVIDENCE_DIR=/tmp/wt/matrix_ev GOODWE_SRC=$WT ./vcheck $C --tier $T > /tmp/matrix_$n.log 2>&1; rc=$?
   nv=$(grep -o "new_violations=[0-9]*" /tmp/matrix_$n.log | tail -1 | cut -d= -f2)
   res="MISSED"; [ "$rc" = "1" ] && res="detected (exit 1)"; [ "$rc" = "2" ] && res="harness error (exit 2)"
   echo "| $n | $C | $res | $nv |" >> seeded/RESULTS.md.tmp
   echo "$n rc=$rc new=$nv"
 done
 mv seeded/RESULTS.md.tmp seeded/RESULTS.md
+rm -rf /tmp/wt/matrix_ev
 git -C /repo worktree remove --force $WT
